@@ -735,6 +735,7 @@ func c20Record(t *testing.T) {
 
 type c20Step struct {
 	T    int                 `json:"t"`
+	Ins  []string            `json:"ins"` // the model's instruction of this step: kind, class, id
 	Pos  [][]json.RawMessage `json:"pos"`
 	Wown [][]string          `json:"wown"`
 	Node map[string][]int    `json:"node"`
@@ -746,6 +747,37 @@ type c20Beh struct {
 	Scen  [][][]string `json:"scen"`
 	Steps []c20Step    `json:"steps"`
 	Acked map[string][]int `json:"acked"`
+	// operations of the scenario whose program depends on Go's map iteration order (Directory.cacheSync), and how
+	// often the schedule may be replayed until the real visit order is the one the model chose
+	OrderOps []string `json:"order_ops"`
+	Tries    int      `json:"tries"`
+}
+
+// c20ReplayOrders replays b; when the replay ends because a thread inside a map-order dependent operation arrives
+// at another instruction than the model's program has there (cacheSync visited the children in another order),
+// the schedule says nothing yet: it is replayed again on a fresh root, up to b.Tries times.  The visit orders met
+// are reported.
+func c20ReplayOrders(b c20Beh, stepTimeout, hangWait time.Duration) M {
+	tries := b.Tries
+	if tries < 1 {
+		tries = 1
+	}
+	var res M
+	other := map[string]int{}
+	k := 0
+	for k < tries {
+		k++
+		res = c20Replay(b, stepTimeout, hangWait)
+		if res["orderdiff"] != true {
+			break
+		}
+		other[fmt.Sprint(res["realins"])]++
+	}
+	if k > 1 || len(other) > 0 {
+		res["attempts"] = k
+		res["other_orders"] = other
+	}
+	return res
 }
 
 func c20Eq(a, b []int) bool {
@@ -890,6 +922,23 @@ func c20Replay(b c20Beh, stepTimeout, hangWait time.Duration) M {
 	}
 	for k, s := range b.Steps {
 		th := r.ths[s.T-1]
+		if len(s.Ins) == 3 {
+			// the thread waits at its gate (checked after the previous step): it must be about to execute the
+			// instruction the model's program has at this position
+			r.mu.Lock()
+			cur, site, opi := th.cur, th.site, th.opi
+			r.mu.Unlock()
+			if cur != [3]string{s.Ins[0], s.Ins[1], s.Ins[2]} {
+				order := false
+				if opi >= 1 && opi <= len(th.sess) {
+					for _, o := range b.OrderOps {
+						order = order || o == th.sess[opi-1][0]
+					}
+				}
+				return fail(k, fmt.Sprintf("before step %d: thread t%d is about to execute %v at %s, the model's program has %v there",
+					k+1, s.T, cur, site, s.Ins), M{"insdiff": true, "orderdiff": order, "realins": cur})
+			}
+		}
 		th.gate <- struct{}{}
 		for i := range want {
 			want[i] = c20ParsePos(s.Pos[i])
@@ -990,7 +1039,7 @@ func TestVerifC20(t *testing.T) {
 		if err := json.Unmarshal([]byte(pl), &b); err != nil {
 			t.Fatal(err)
 		}
-		out, _ := json.Marshal(c20Replay(b, stepTO, hangW))
+		out, _ := json.Marshal(c20ReplayOrders(b, stepTO, hangW))
 		fmt.Printf("\nC20RESULT %s\n", out)
 		return
 	}
@@ -1006,7 +1055,7 @@ func TestVerifC20(t *testing.T) {
 			}
 			var res M
 			if b.Kind == "stuck" { // may leave goroutines dead-locked: isolate in a child process
-				out, outcome := vChild("TestVerifC20", string(raw), stepTO*4+hangW+20*time.Second)
+				out, outcome := vChild("TestVerifC20", string(raw), stepTO*4+hangW+20*time.Second+time.Duration(b.Tries)*time.Second)
 				res = nil
 				for _, ln := range strings.Split(out, "\n") {
 					if strings.HasPrefix(ln, "C20RESULT ") {
@@ -1017,7 +1066,7 @@ func TestVerifC20(t *testing.T) {
 					res = M{"ok": false, "step": -1, "childdied": true, "what": "child " + outcome + ": " + out[max(0, len(out)-400):]}
 				}
 			} else {
-				res = c20Replay(b, stepTO, hangW)
+				res = c20ReplayOrders(b, stepTO, hangW)
 			}
 			res["i"] = i
 			vEmit(res)
